@@ -30,6 +30,10 @@ type val struct {
 	Len  int    `json:"len,omitempty"` // payload descriptor when B == nil and Len > 0
 	NZ   bool   `json:"nz,omitempty"`
 	Bits uint64 `json:"bits,omitempty"` // kind "double": the IEEE-754 pattern
+	// Ad: this "int" value n, the n "strb" values after it and the two "str" values after
+	// those are sent by ONE call PutClassAdRawBytes(exprs, myType, targetType); on the wire
+	// (and for the model, the format encoder and the reader) they are just those values
+	Ad bool `json:"ad,omitempty"`
 }
 
 func (v val) bytes() []byte {
@@ -100,6 +104,94 @@ func put(m *message.Message, v val) error {
 	default:
 		return m.PutBytes(ctx, v.bytes())
 	}
+}
+
+// putAll sends vs through the real writer the way cedar's callers use the []byte entry
+// points (PutStringBytes, PutBytes, PutClassAdRawBytes: "b is not modified", "may alias a
+// shared buffer"): every []byte argument of the message is a SUB-SLICE of one shared scratch
+// buffer into which all of them were rendered back to back, so each argument has cap > len
+// with LIVE data (the next argument, finally a guard) right behind it.
+//   - aliasing oracle: after every call the whole scratch buffer must be byte-identical to
+//     what it was before the call (alias != "" reports the first difference);
+//   - after a call has returned the harness overwrites that argument's bytes (0xEE): the
+//     Message / stream must not have retained the caller's slice - if it did, the emitted
+//     frames differ from the format encoder and the model.
+func putAll(m *message.Message, vs []val) (putErr error, alias string) {
+	type span struct{ off, n int }
+	spans := make([]span, len(vs))
+	var scratch []byte
+	for i, v := range vs {
+		if v.Kind == "strb" || v.Kind == "bytes" {
+			b := v.bytes()
+			spans[i] = span{len(scratch), len(b)}
+			scratch = append(scratch, b...)
+		}
+	}
+	scratch = append(scratch, []byte("\xa5live data behind the last argument\x5a")...)
+	snap := append([]byte(nil), scratch...)
+	arg := func(i int) []byte { return scratch[spans[i].off : spans[i].off+spans[i].n] } // cap reaches the end of scratch
+	check := func(call string) {
+		if alias != "" || bytes.Equal(scratch, snap) {
+			return
+		}
+		for k := range scratch {
+			if scratch[k] != snap[k] {
+				alias = fmt.Sprintf("%s modified the caller's buffer: byte %d of the shared backing array (len %d) changed from %#02x to %#02x", call, k, len(scratch), snap[k], scratch[k])
+				return
+			}
+		}
+	}
+	clobber := func(i int) {
+		for k := spans[i].off; k < spans[i].off+spans[i].n; k++ {
+			scratch[k], snap[k] = 0xee, 0xee
+		}
+	}
+	for i := 0; i < len(vs); i++ {
+		v := vs[i]
+		switch {
+		case v.Ad:
+			n := int(v.I)
+			if n < 0 || i+n+2 >= len(vs) {
+				return fmt.Errorf("harness: malformed ad group"), alias
+			}
+			exprs := make([][]byte, n)
+			for k := 0; k < n; k++ {
+				exprs[k] = arg(i + 1 + k)
+			}
+			putErr = m.PutClassAdRawBytes(ctx, exprs, string(vs[i+1+n].bytes()), string(vs[i+2+n].bytes()))
+			check("PutClassAdRawBytes")
+			for k := 0; k < n; k++ {
+				clobber(i + 1 + k)
+				exprs[k] = nil
+			}
+			i += n + 2
+		case v.Kind == "strb":
+			putErr = m.PutStringBytes(ctx, arg(i))
+			check("PutStringBytes")
+			clobber(i)
+		case v.Kind == "bytes":
+			putErr = m.PutBytes(ctx, arg(i))
+			check("PutBytes")
+			clobber(i)
+		default:
+			putErr = put(m, v)
+			check("Put " + v.Kind)
+		}
+		if putErr != nil {
+			return putErr, alias
+		}
+	}
+	return nil, alias
+}
+
+// adGroup builds the values of one PutClassAdRawBytes call.
+func adGroup(exprs []val, myType, targetType string) []val {
+	vs := []val{{Kind: "int", I: int64(len(exprs)), Ad: true}}
+	for _, e := range exprs {
+		e.Kind = "strb"
+		vs = append(vs, e)
+	}
+	return append(vs, val{Kind: "str", B: []byte(myType)}, val{Kind: "str", B: []byte(targetType)})
 }
 
 // specEncode is an independent encoder written from the protocol description:
@@ -506,11 +598,14 @@ func sameRes(r, want gres) bool {
 func encodeCase(c *core.Ctx, enc bool, vs []val) ([]mock.Frame, bool) {
 	st := &mock.Stream{Enc: enc}
 	m := message.NewMessageForStream(st)
-	for _, v := range vs {
-		if err := put(m, v); err != nil {
-			c.OracleFail("put-error", fmt.Sprintf("Put %s returned %v", v.Kind, err), map[string]interface{}{"kind": "enc", "enc": enc, "vals": vs})
-			return nil, false
-		}
+	putErr, alias := putAll(m, vs)
+	c.OracleCheck()
+	if alias != "" {
+		c.OracleFail("caller-slice-modified", alias, map[string]interface{}{"kind": "enc", "enc": enc, "vals": vs})
+	}
+	if putErr != nil {
+		c.OracleFail("put-error", fmt.Sprintf("Put returned %v", putErr), map[string]interface{}{"kind": "enc", "enc": enc, "vals": vs})
+		return nil, false
 	}
 	if err := m.FinishMessage(ctx); err != nil {
 		return nil, false
@@ -691,7 +786,7 @@ func randVal(c *core.Ctx, small bool) val {
 }
 
 func gen(c *core.Ctx) error {
-	c.Rule("encode: random and boundary value sequences (chars, integers of every width, strings, byte strings, doubles as 64-bit patterns) through the real Message writer on a recording stream, compared frame by frame with the model writer and byte for byte with an independent format encoder (math/big for doubles); decode: the encoded bytes re-cut at every single position (short sequences, every special double) and random multi-cuts, plus malformed inputs and integer pairs no encoder produces, through the real Message reader, compared op by op (also after an error result) with the model reader; oracles on the implementation: layout = format definition, decoded = sent (doubles: |decoded-sent| <= |sent|*2^-30 in exact rationals and bit-equal to the math/big reference decoder), EOM only on the last frame. non-trivial = decode case in which every Get succeeded, or encode case; distinct by (mode, values, cuts)")
+	c.Rule("encode: random and boundary value sequences (chars, integers of every width, strings, byte strings, doubles as 64-bit patterns) through the real Message writer on a recording stream, compared frame by frame with the model writer and byte for byte with an independent format encoder (math/big for doubles); decode: the encoded bytes re-cut at every single position (short sequences, every special double) and random multi-cuts, plus malformed inputs and integer pairs no encoder produces, through the real Message reader, compared op by op (also after an error result) with the model reader; every []byte argument (PutStringBytes, PutBytes, the expressions of PutClassAdRawBytes) is a sub-slice of one shared scratch buffer with live data behind it and is overwritten by the harness after the call; oracles on the implementation: the caller's buffer is unchanged by every Put call, layout = format definition, decoded = sent (doubles: |decoded-sent| <= |sent|*2^-30 in exact rationals and bit-equal to the math/big reference decoder), EOM only on the last frame. non-trivial = decode case in which every Get succeeded, or encode case; distinct by (mode, values, cuts)")
 	c.Assume("float->int32 conversion of NaN/Inf is implementation-defined in Go; the model has the amd64 semantics (CVTTSD2SL, -2^31) and NaN/Inf cases are compared only when GOARCH=amd64 (this run: " + runtime.GOARCH + ")")
 	nSeq := 42
 	nBig := 6
@@ -809,8 +904,72 @@ func gen(c *core.Ctx) error {
 				}
 			}
 		}
+		// 2c. PutClassAdRawBytes: all expressions of an ad are sub-slices of one shared buffer
+		// (putAll), sent by ONE call; on the wire: count, expressions, MyType, TargetType
+		ex := func(ss ...string) []val {
+			var out []val
+			for _, x := range ss {
+				out = append(out, val{B: []byte(x)})
+			}
+			return out
+		}
+		ads := [][]val{
+			ex(),
+			ex("A = 1"),
+			ex("MyType = \"Machine\"", "Name = \"slot1@host.example\"", "Cpus = 8", "Memory = 16384"),
+			ex("", "B = 2", ""),
+			ex("Pre = \"x\"", "Cut = \"ab\x00cd\"", "Post = true"),
+			ex("a", "b", "c", "d", "e", "f", "g"),
+			ex("\x00", "\x00x", "x\x00"),
+		}
+		if !c.Quick() || !enc { // large expressions: the > MaxFrameSize path of PutStringBytes inside an ad
+			ads = append(ads, []val{{B: []byte("Small = 1")}, {Off: 5, Len: 1048575, NZ: true}, {B: []byte("After = 2")}})
+		}
+		if !c.Quick() {
+			ads = append(ads,
+				[]val{{Off: 7, Len: 1048576, NZ: true}, {B: []byte("After = 2")}},
+				[]val{{B: []byte("Small = 1")}, {Off: 9, Len: 2097151, NZ: true}},
+				[]val{{Off: 11, Len: 2097152, NZ: true}, {Off: 13, Len: 1048567, NZ: true}, {B: []byte("After = 2")}})
+		}
+		for ai, exprs := range ads {
+			vs := append([]val{{Kind: "char", I: 0x5b}}, adGroup(exprs, "Machine", "Job")...)
+			vs = append(vs, val{Kind: "strb", B: []byte("tail")}, val{Kind: "char", I: 0x5d})
+			fr, ok := encodeCase(c, enc, vs)
+			if !ok {
+				continue
+			}
+			c.Count("enc-classad-raw-bytes")
+			all := concat(fr)
+			if !bytes.Equal(all, specEncode(enc, vs)) {
+				continue // layout oracle already failed
+			}
+			var exp []gres
+			for _, x := range vs {
+				exp = append(exp, expect(x))
+			}
+			if len(all) > 4000 {
+				desc := map[string]interface{}{"kind": "dec-own-framing", "enc": enc, "vals": vs}
+				decodeCaseT(c, enc, fr, specTerm(enc, vs), opsFor(vs), exp, desc)
+				c.Nontrivial(fmt.Sprint("adraw-large", enc, ai))
+				continue
+			}
+			cuts := [][]int{{}, {len(all) / 2}, {c.Rng.Intn(len(all) + 1)}}
+			var every []int
+			for p := 1; p < len(all); p++ {
+				every = append(every, p)
+			}
+			cuts = append(cuts, every)
+			for _, cs := range cuts {
+				sort.Ints(cs)
+				desc := map[string]interface{}{"kind": "dec", "enc": enc, "vals": vs, "cuts": cs}
+				decodeCase(c, enc, mock.Cut(all, cs), opsFor(vs), exp, desc)
+				c.Nontrivial(fmt.Sprint("adraw", enc, ai, cs))
+			}
+		}
 		// 3. sizes around the frame targets: strings / bytes built from payload descriptors
-		sizes := []int{16383, 16384, 16385, 16376, 16377, 16375, 4096, 1048575, 1048576, 1048577, 1048568, 1048567, 2097153}
+		// (string lengths 1048575 / 2097151 / 3145727 make the NUL-terminated data an exact multiple of 1 MiB)
+		sizes := []int{16383, 16384, 16385, 16376, 16377, 16375, 4096, 1048575, 1048576, 1048577, 1048568, 1048567, 2097153,
+			2097151, 2097152, 3145727, 3145728}
 		for i, n := range sizes {
 			if c.Quick() && i >= nBig+4 {
 				break
@@ -1161,10 +1320,10 @@ func replay(raw json.RawMessage) error {
 	}
 	st := &mock.Stream{Enc: d.Enc}
 	m := message.NewMessageForStream(st)
-	for _, v := range d.Vals {
-		if err := put(m, v); err != nil {
-			return fmt.Errorf("put: %v", err)
-		}
+	if putErr, alias := putAll(m, d.Vals); alias != "" {
+		return fmt.Errorf("%s", alias)
+	} else if putErr != nil {
+		return fmt.Errorf("put: %v", putErr)
 	}
 	if err := m.FinishMessage(ctx); err != nil {
 		return err
